@@ -254,6 +254,9 @@ class Translator:
         self.notes = set()
         self.unresolved = set()
         self.unclassified = set()
+        self.libcalls = set()      # (dotted, npos, kwspec, class used)
+        self.methcalls = set()     # (name, npos, kwspec, class used)
+        self.probed = {}           # unknown library name -> class derived from the probe
         self.nstmts = 0
         self.selfattrs = {}        # ns -> {attr: var}
         self.lazy = set()          # attribute variables created by a read (not assigned by the code)
@@ -311,6 +314,7 @@ class Translator:
         self.body(fn.body, fr)
         return {'name': qual, 'params': list(self.seeds), 'prog': self.cur, 'names': dict(self.names), 'nvars': self.nvar,
                 'unresolved': sorted(self.unresolved), 'unclassified': sorted(self.unclassified), 'notes': sorted(self.notes),
+                'libcalls': sorted(self.libcalls, key=repr), 'methcalls': sorted(self.methcalls, key=repr), 'probed': dict(self.probed),
                 'nstmts': self.nstmts}
 
     def enter_params(self, fr, fn, args, kwargs, top=False, self_var=None):
@@ -1078,6 +1082,26 @@ class Translator:
     def ex_DictComp(self, e, fr): return self.comprehension(e, [e.key, e.value], fr)
 
     # ---- calls
+    @staticmethod
+    def call_shape(e):
+        """(number of positional arguments, ((keyword, literal source or None), ...)) of a call"""
+        def lit(v):
+            if isinstance(v, ast.Constant):
+                return repr(v.value)
+            if isinstance(v, ast.UnaryOp) and isinstance(v.op, ast.USub) and isinstance(v.operand, ast.Constant):
+                return '-' + repr(v.operand.value)
+            if isinstance(v, (ast.Tuple, ast.List)) and all(lit(x) is not None for x in v.elts):
+                return ast.unparse(v)
+            if isinstance(v, ast.Attribute):
+                root = v
+                while isinstance(root, ast.Attribute):
+                    root = root.value
+                if isinstance(root, ast.Name) and root.id in ('np', 'numpy', 'torch', 'math'):
+                    return ast.unparse(v)
+            return None
+        return (sum(1 for a in e.args if not isinstance(a, ast.Starred)),
+                tuple(sorted((kw.arg, lit(kw.value)) for kw in e.keywords if kw.arg is not None)))
+
     def ex_Call(self, e, fr):
         T = self.T
         args, kwargs, star = [], {}, []
@@ -1314,30 +1338,71 @@ class Translator:
     def library_call(self, dotted, args, kwargs, allv, fr, e):
         T = self.T
         dotted = T.normalise(dotted)
+        npos, kwspec = self.call_shape(e)
+        r = self.library_call_(dotted, args, kwargs, allv, fr, e, npos, kwspec)
+        return r
+
+    def copies_not(self, kwargs, e):
+        """the call passes `copy=` with anything but the literal True"""
+        for kw in e.keywords:
+            if kw.arg == 'copy' and not (isinstance(kw.value, ast.Constant) and kw.value.value is True):
+                return True
+        return False
+
+    def library_call_(self, dotted, args, kwargs, allv, fr, e, npos, kwspec):
+        T = self.T
+        rec = lambda cls: self.libcalls.add((dotted, npos, kwspec, cls))
+        if dotted in T.LIB_WRITE_UNLESS_COPY and (self.copies_not(kwargs, e) or npos > 1):
+            rec('write')
+            if args and args[0][0] is not None:
+                self.emit('mut', args[0][0])
+            return (self.alias_of(allv, fr, dotted, 'array'), 'array') if allv else (None, 'array')
+        if (dotted in T.LIB_FRESH or dotted in T.LIB_FRESH_UNLESS_COPY) and self.copies_not(kwargs, e):
+            rec('alias')
+            return (self.alias_of(allv, fr, dotted, 'array'), 'array') if allv else (None, 'array')
         if dotted in T.LIB_MUTATE:
+            rec('write')
             for i in T.LIB_MUTATE[dotted]:
                 if i < len(args) and args[i][0] is not None:
                     self.emit('mut', args[i][0])
             return (self.alias_of(allv, fr, dotted, None), None) if allv else (None, None)
         if dotted in T.LIB_SCALAR:
+            rec('scalar')
             return None, 'scalar'
         if dotted in T.LIB_ALIAS:
-            if 'copy' in kwargs and dotted in ('numpy.array',):
-                pass
+            rec('alias')
             if not allv:
                 return None, 'array'
             return self.alias_of(allv, fr, dotted, 'array'), 'array'
         if dotted in T.LIB_CONTAINER:
+            rec('alias')
             return self.container_of(allv, fr, dotted)
         if dotted in T.LIB_LOAD:
+            rec('alias')
             if not allv:
                 return None, None
             nv = self.var('%d:%s' % (fr.depth, dotted), None)
             self.emit('load', nv, allv)
             return nv, None
-        if dotted in T.LIB_FRESH or any(dotted.startswith(p) for p in T.LIB_FRESH_PREFIXES):
+        if dotted in T.LIB_FRESH or dotted in T.LIB_FRESH_UNLESS_COPY or any(dotted.startswith(p) for p in T.LIB_FRESH_PREFIXES):
+            rec('fresh')
             return None, T.LIB_FRESH_KIND.get(dotted, 'array' if dotted.split('.')[0] in ('numpy', 'torch') else None)
+        # a library function that is in no table: classified from an observation of the real function under this
+        # call shape (harness/props/c20_probe.py), else conservatively: it may write its arguments and return parts of them
+        cls = None
+        last = dotted.rsplit('.', 1)[-1]
+        if last.endswith('_') and not last.startswith('_'):
+            cls = 'write'
+        elif getattr(T, 'PROBE', None) is not None:
+            cls = T.PROBE(dotted, npos, kwspec)
+        self.probed[dotted] = cls or 'unprobed: treated as writing its arguments'
         self.unclassified.add(dotted)
+        rec(cls or 'write')
+        if cls == 'fresh':
+            return None, 'array' if dotted.split('.')[0] in ('numpy', 'torch') else None
+        if cls is None or cls == 'write':
+            for v in allv:
+                self.emit('mut', v)
         if not allv:
             return None, None
         nv = self.var('%d:%s' % (fr.depth, dotted), None)
@@ -1347,14 +1412,19 @@ class Translator:
     def method_call(self, name, recv, rk, args, kwargs, allv, fr, e):
         T = self.T
         argv = list(allv)
+        npos, kwspec = self.call_shape(e)
+        rec = lambda cls: self.methcalls.add((name, npos, kwspec, cls))
         inplace = name.endswith('_') and not name.startswith('_') and name not in T.METH_NOT_INPLACE
         if name in T.METH_SCALAR or (rk == 'scalar' and name not in T.METH_STORE and name not in T.METH_MUT and not inplace):
+            rec('scalar' if name in T.METH_SCALAR else 'scalar-receiver')
             return None, 'scalar'
         if name in T.METH_STORE:
+            rec('write')
             if recv is not None:
                 self.emit('store', recv, argv)
             return None, None
         if name in T.METH_MUT or inplace:
+            rec('write')
             if recv is not None:
                 self.emit('mut', recv)
             return recv, rk
@@ -1364,6 +1434,7 @@ class Translator:
                 self.emit('mut', tmp)
             return None, None
         if name in T.METH_FRESH:
+            rec('alias' if (name == 'astype' and 'copy' in kwargs) or (name == 'copy' and rk != 'array') else 'fresh')
             if name == 'astype' and 'copy' in kwargs:
                 return (self.alias_of([recv], fr, name, 'array'), 'array') if recv is not None else (None, 'array')
             if name == 'copy' and rk != 'array' and recv is not None:
@@ -1371,11 +1442,13 @@ class Translator:
                 return self.container_of([recv], fr, 'copy') if rk == 'container' else self.maybe_container([recv], fr, 'copy')
             return None, T.METH_FRESH_KIND.get(name, 'array' if rk == 'array' else None)
         if name in T.METH_ALIAS:
+            rec('alias')
             k = (rk or 'array') if name in T.METH_ARRAY_ONLY else rk
             if recv is None:
                 return None, k
             return self.alias_of([recv], fr, name, k), k
         if name in T.METH_LOAD:
+            rec('write' if name in T.METH_LOAD_MUT or name == 'setdefault' else 'alias')
             ys = [v for v in [recv] if v is not None]
             if name in T.METH_LOAD_MUT and recv is not None:
                 self.emit('mut', recv)
@@ -1601,10 +1674,10 @@ def translate_all(repo, tables):
             r['error'] = None
         except Unsupported as ex:
             r = {'name': qual, 'params': [], 'prog': [], 'names': {}, 'nvars': 0, 'unresolved': [], 'unclassified': [],
-                 'notes': [], 'nstmts': 0, 'error': str(ex)}
+                 'notes': [], 'nstmts': 0, 'error': str(ex), 'libcalls': [], 'methcalls': [], 'probed': {}}
         except RecursionError:
             r = {'name': qual, 'params': [], 'prog': [], 'names': {}, 'nvars': 0, 'unresolved': [], 'unclassified': [],
-                 'notes': [], 'nstmts': 0, 'error': 'recursion'}
+                 'notes': [], 'nstmts': 0, 'error': 'recursion', 'libcalls': [], 'methcalls': [], 'probed': {}}
         r['file'] = P.modules[modname].path
         r['line'] = fn.lineno
         out.append(r)
